@@ -118,9 +118,12 @@ let show c mvtext w0 w =
   c.shown <- List.length tr;
   let fresh = List.filter (fun e -> match e with
       | EvSigWrite (_, _) -> w0.sigf <> w.sigf
-      | EvMonSet _ -> w.monf && not w0.monf
       | _ -> true) fresh in
-  let evs = if fresh = [] then "-" else String.concat " " (List.map ev_str fresh) in
+  (* every Monitor::set that passed its critical section is shown as P<t> (after M<t> when the flag changed value) *)
+  let ev_strs e = match e with
+    | EvMonSet t -> (if w.monf && not w0.monf then [ev_str e] else []) @ [Printf.sprintf "P%d" (int_of_nat t)]
+    | _ -> [ev_str e] in
+  let evs = if fresh = [] then "-" else String.concat " " (List.concat_map ev_strs fresh) in
   let ths = String.concat " " (List.init c.n (fun i -> thread_tok w i)) in
   emit (Printf.sprintf "%s | %s | %s | sf=%d mf=%d occ=%s sem=%s %s %s %s %s %s now=%s" mvtext evs ths
           (if w.sigf then 1 else 0) (if w.monf then 1 else 0) (dec_of_z w.occ) (dec_of_z (w.ps.sem O))
